@@ -154,6 +154,14 @@ func (p *Program) axiomTerms(x *Exec) []*T {
 	out = append(out, term.ForallPat([]*T{w, sb, tb}, term.Imp(rng2, term.Eq(bit(byteOf, tb), bit(w, term.Add(sb, tb)))), [][]*T{{term.App(fShr, byteOf, tb)}}))
 	out = append(out, term.ForallPat([]*T{sb}, term.Eq(term.App(fShr, term.I(0), sb), term.I(0)), [][]*T{{term.App(fShr, term.I(0), sb)}}))
 	out = append(out, term.ForallPat([]*T{sb}, term.Eq(term.App(fShl, term.I(0), sb), term.I(0)), [][]*T{{term.App(fShl, term.I(0), sb)}}))
+	// setting a bit that is known to be clear is an addition: a | 2^k == a + 2^k when a is a
+	// multiple of 2^(k+1) (bits are set from the most significant one downwards)
+	for k := int64(0); k <= 15; k++ {
+		c := pow2(k)
+		orc := term.App(fBor, a, c)
+		out = append(out, term.ForallPat([]*T{a}, term.Imp(term.And(term.Le(term.I(0), a), term.Eq(term.EMod(a, pow2(k+1)), term.I(0))),
+			term.Eq(orc, term.Add(a, c))), [][]*T{{orc}}))
+	}
 	p.axioms = out
 	return out
 }
